@@ -313,6 +313,10 @@ func SetAttrString(self Object, key string, value Object) (Object, error) {
 	// Otherwise set the attribute in the instance dictionary if
 	// possible
 	if I, ok := self.(IGetDict); ok {
+		// The dictionary of a built in type is shared by every context
+		if t, ok := self.(*Type); ok && t.Flags&(TPFLAGS_READY|TPFLAGS_HEAPTYPE) == TPFLAGS_READY {
+			return nil, ExceptionNewf(TypeError, "can't set attributes of built-in/extension type '%s'", t.Name)
+		}
 		dict := I.GetDict()
 		if dict == nil {
 			return nil, ExceptionNewf(SystemError, "nil Dict in %s", self.Type().Name)
@@ -358,6 +362,9 @@ func DeleteAttrString(self Object, key string) error {
 	// Otherwise delete the attribute from the instance dictionary
 	// if possible
 	if I, ok := self.(IGetDict); ok {
+		if t, ok := self.(*Type); ok && t.Flags&(TPFLAGS_READY|TPFLAGS_HEAPTYPE) == TPFLAGS_READY {
+			return ExceptionNewf(TypeError, "can't set attributes of built-in/extension type '%s'", t.Name)
+		}
 		dict := I.GetDict()
 		if dict == nil {
 			return ExceptionNewf(SystemError, "nil Dict in %s", self.Type().Name)
